@@ -151,6 +151,7 @@ def c04():
         j("c04_clone_2", T, 100, "clone N=2"),
         j("c04_iter_destroy_3", Q, 200, "ecs_iter_destroy! drops exactly the flagged ones once"),
         j("c04_iter_destroy_2", T, 100, "ecs_iter_destroy! N=2"),
+        J("c04_refused_clone_2", Q, 60, what="a clone refused because a column is mutably borrowed refuses BEFORE cloning anything (no leaked clones)", bounds=b, assumes=a, expect_fail=(("placeholder message", "panic_already"),)),
         j("c04_history", Q, 60, "public-API history without hooks (cross-check of the step argument)"),
         J("c10_overflow_destroy_tokens_any_3", Q, 120, what="counter-overflow panic inside destroy: nothing dropped by the failed destroy; world owns every token exactly once afterwards (state at the panic point; natively after catch_unwind + world drop)",
           bounds=b, assumes=a + STUBS, stubbing=True, role="overflow_mid_destroy"),
@@ -296,13 +297,15 @@ def c12():
         j("c12_destroy_foo_3", Q, 100, "len/is_empty/capacity after destroy; free-list accounting (Inv I4)"),
         j("c12_destroy_foo_4", T, 150, "same, N=4"),
         j("c12_create_foo_3", Q, 150, "create: len+1, capacity never decreases, no growth while there is room"),
-        j("c12_create_foo_1", T, 80, "same, N=1"),
+        j("c12_create_foo_1", Q, 80, "same, N=1 (growth from capacity 1)"),
         j("c12_refill_foo_3", Q, 150, "refill to exactly capacity from any pattern of free positions, then refuse"),
         j("c12_refill_foo_4", T, 300, "refill N=4"),
         j("c12_refill_tri_3", T, 200, "refill, 3 columns"),
         j("c12_with_capacity_fill_3", Q, 100, "with_capacity(n) permits n creations without reallocation (public API only)"),
         j("c12_with_capacity_fill_1", Q, 60, "same n=1 (one-slot free list)"),
         j("c12_with_capacity_fill_2", T, 80, "same n=2"),
+        J("c12_refill_api_2", Q, 200, what="public API only, feature events with never-cleared logs: fill, destroy, refill twice; create_within_capacity Ok iff len < capacity", bounds=b, features=("events",)),
+        J("c12_refill_api_2", T, 100, what="same, default features", bounds=b),
         j("c12_zero_capacity", Q, 40, "capacity 0: refuse within capacity, grow on create"),
         j("c12_limit_within_capacity", Q, 20, "create_within_capacity at the 2^24 limit refuses, nothing changes"),
         j("c12_limit_create_panics", Q, 20, "create at the 2^24 limit panics 'capacity overflow'", expect_fail=(("capacity overflow", "push"),)),
@@ -385,7 +388,8 @@ def c14_e1():
 
 def c15_e1():
     b = "one declaration with 6 archetypes (implicit, ascending, descending explicit ids, 255) and per-archetype explicit component ids; symbolic id / handle into the generated tables"
-    return [J("c15_constants_agree", Q, 60, what="ARCHETYPE_ID / COMPONENT_ID / ecs_component_id! / archetype_id() / Select* agree with each other and the discriminant rule on a real expansion", bounds=b)]
+    return [J("c15_explicit_zero_ids", Q, 40, what="explicit id 0 on non-first archetypes/components, ids declared in descending order, disabled component carrying an explicit id", bounds=b),
+            J("c15_constants_agree", Q, 60, what="ARCHETYPE_ID / COMPONENT_ID / ecs_component_id! / archetype_id() / Select* agree with each other and the discriminant rule on a real expansion", bounds=b)]
 
 
 def c17():
@@ -424,6 +428,7 @@ def c19():
         ("c01::c01_destroy_typed_foo_3", 150, (), ()),
         ("c01::c01_destroy_wdirectany_foo_2", 200, (), ()),
         ("c03::c03_forged_arch_foo_3", 150, (CLEAN_ENTITY,), ()),
+        ("c03::c03_direct_arch_foo_3", 100, (CLEAN_DIRECT,), ()),
         ("c13::c13_clone_destroy_on_orig_foo_3", 250, (), ()),
         ("c04::c04_destroy_any_3", 150, (), ()),
         ("c04::c04_clone_3", 200, (), ()),
@@ -433,7 +438,7 @@ def c19():
         ("c19::c19_wide17_destroy_2", 300, (), ()),
     ]
     quick_sets = {((), True), ((), False), (("events", "wrapping_version", "c32"), True), (("events", "wrapping_version", "c32"), False)}
-    quick_core = {"c01::c01_create_foo_3", "c01::c01_destroy_typed_foo_3", "c03::c03_forged_arch_foo_3", "c04::c04_destroy_any_3",
+    quick_core = {"c03::c03_direct_arch_foo_3", "c01::c01_create_foo_3", "c01::c01_destroy_typed_foo_3", "c03::c03_forged_arch_foo_3", "c04::c04_destroy_any_3",
                   "c08::c08_overflow_slot_typed_foo_3", "c19::c19_wide17_destroy_2", "c13::c13_clone_destroy_on_orig_foo_3"}
     jobs = []
     for fs in FEATURE_SETS:
